@@ -1,3 +1,4 @@
+import DV.Model.RK
 /-!
 # Model of the Jacobian dispatch of `DiffRHS` (`jac`, `hook_jacobian_call`, `unhook_jacobian_call`,
 attribute assignment `rhs.jac = f`, `set_jac_base_order`)
@@ -92,6 +93,7 @@ def attachedAfter (attached : Option Nat) : Op → Option Nat
   | .unhook => Option.none
   | _ => attached
 
+
 end DV.Jac
 
 namespace DV.Jac
@@ -104,4 +106,11 @@ def stencilExact (K : Nat) (nodes weights : List Int) (degBound tolDen : Nat) : 
     let target : Int := if j = 1 then one else 0
     let d := s - target
     decide ((tolDen : Int) * (if d < 0 then -d else d) ≤ one))
+
+/-- one column of `JacobianWrapper.estimate`: `(Σ_k w_k · f(y + x_k·dy·e)) / dy`, `e` the unit vector of the input component the
+column belongs to (`y_msk`), `stencil` the list of `(x_k, w_k)`; the rows of the result are the components of `f` -/
+def fdColumn {α W V : Type} [Num α] (opsW : RK.VOps α W) (opsV : RK.VOps α V) (f : W → V) (y e : W) (dy : α) (stencil : List (α × α)) : V :=
+  opsV.smul (Lit.lit 1 / dy)
+    (stencil.foldl (fun acc p => opsV.add acc (opsV.smul p.2 (f (opsW.add y (opsW.smul (p.1 * dy) e))))) opsV.zero)
+
 end DV.Jac
